@@ -17,7 +17,7 @@
    Oracle: #NULL returns == #failed mallocs (each failure reported, no spurious NULL), no
    crash, no hang, propagation intact.  */
 #define _GNU_SOURCE
-#include "common.h"
+#include "sc.h"
 #include <dlfcn.h>
 #include <link.h>
 
